@@ -3,7 +3,7 @@
 
   * any linear order, no arithmetic laws (= any rounding): the clips put their result in the box;
   * exact arithmetic over a linearly ordered field `K`: the case split at-lower / at-upper / neither
-    of controller.py:254-309 yields steps `t` with `δ/100 ≤ |t| ≤ 2δ` that stay in `[sl, su]`,
+    of controller.py:255-310 yields steps `t` with `δ/100 ≤ |t| ≤ 2δ` that stay in `[sl, su]`,
     the two steps along one coordinate differ, and rows that can be swapped have `|t| ≤ δ`.
 -/
 import DfolsVerif.Kernels.InitDirs
@@ -51,7 +51,7 @@ theorem clip_mem {sl su : α} (h : sl ≤ su) (x : α) : sl ≤ clip sl su x ∧
 theorem clip_of_mem {sl su x : α} (h1 : sl ≤ x) (h2 : x ≤ su) : clip sl su x = x := by
   rw [clip_eq, max_eq_right h1, min_eq_left h2]
 
-/-- x0 after solver.py:1099-1108 lies in `[xl, xu]` whenever `xl ≤ xu` -/
+/-- x0 after solver.py:1107-1116 lies in `[xl, xu]` whenever `xl ≤ xu` -/
 theorem clampX0_mem {l u : α} (h : l ≤ u) (x : α) : l ≤ clampX0 x l u ∧ clampX0 x l u ≤ u := by
   unfold clampX0
   dsimp only
@@ -140,7 +140,7 @@ structure Coord (δ sl su : K) : Prop where
   hi : 0 ≤ su
   gap : 2 * δ ≤ su - sl
 
-/-- **first step** (controller.py:296 + clip): `min δ su ≥ δ/100` upwards, or exactly `-δ` -/
+/-- **first step** (controller.py:297 + clip): `min δ su ≥ δ/100` upwards, or exactly `-δ` -/
 theorem step1_clip {δ sl su : K} (h : Coord δ sl su) :
     (¬ su < δ / 100 ∧ clip sl su (step1 δ su) = min δ su) ∨
     (su < δ / 100 ∧ clip sl su (step1 δ su) = -δ) := by
@@ -158,7 +158,7 @@ theorem step1_clip {δ sl su : K} (h : Coord δ sl su) :
     simp only [Bool.false_eq_true, if_false]
     rw [clip_eq, max_eq_right (by linarith)]
 
-/-- **second step** (controller.py:303-309 + clip) in the three cases of the code -/
+/-- **second step** (controller.py:304-310 + clip) in the three cases of the code -/
 theorem step2_clip {δ sl su : K} (h : Coord δ sl su) :
     (su < δ / 100 ∧ clip sl su (step2 δ sl su) = max (-(2 * δ)) sl) ∨
     (¬ su < δ / 100 ∧ -(δ / 100) < sl ∧ clip sl su (step2 δ sl su) = min (2 * δ) su) ∨
@@ -238,7 +238,7 @@ theorem steps_distinct {δ sl su : K} (h : Coord δ sl su) :
     have h2 : max (-(2 * δ)) sl < -δ := max_lt (by linarith) (by linarith)
     linarith
 
-/-- a swap (controller.py:349) needs steps of opposite sign; this only happens away from both
+/-- a swap (controller.py:350) needs steps of opposite sign; this only happens away from both
     bounds, where the second step is `-δ`: the value kept in row `i+1` always has `|t| ≤ δ`. -/
 theorem rowFinal_ok {δ sl su : K} (h : Coord δ sl su) (lt : Bool) :
     StepOK δ 1 (clip sl su (rowFinal δ sl su lt)) := by
@@ -285,7 +285,7 @@ theorem clip_zero {δ sl su : K} (h : Coord δ sl su) : clip sl su (0.0 : K) = 0
 
 end field
 
-/-! ### the index pair of controller.py:318-322 -/
+/-! ### the index pair of controller.py:319-323 -/
 
 theorem pairIdx_spec {n k : Nat} (h1 : 2 * n + 1 ≤ k) (h2 : k ≤ n * n + n) :
     1 ≤ (pairIdx n k).1 ∧ (pairIdx n k).1 ≤ n ∧ 1 ≤ (pairIdx n k).2 ∧ (pairIdx n k).2 ≤ n ∧
